@@ -29,6 +29,8 @@ AdmitChecks(e) ==
       \cup NameIf(Defects(f) = ToSet(e.want.defects) /\ Outcome(f) = e.want.outcome, "DriftRealisation")
       \cup NameIf(o.parsed => (ImplAdmit(f) = o.poolerr), "DriftErrorClass")
       \cup NameIf(Outcome(f) = "open" => o.inpool = (f.recvslack >= 0), "DriftOpenCell")
+      \* the fee calculator, the calculatenetworkfee logic (run the witness, take the gas) and the node's attribute fees agree
+      \cup NameIf(f.form = "ok" => f.feesources, "DriftFeeSources")
 
 ProposeChecks(e) ==
            NameIf(Proposable(e), "Proposable")
